@@ -193,6 +193,13 @@ def check(P: Project, R: Report) -> None:
                     if isinstance(v, ast.Name) and v.id == s.targets[0].id:
                         id_var = v.id
 
+    if id_var is None:
+        # … or read back from the request just built: `message = create_request(…)`, `req_id = message.id`
+        built = {s.targets[0].id for s in walk_local(send.node) if isinstance(s, ast.Assign) and len(s.targets) == 1 and isinstance(s.targets[0], ast.Name) and isinstance(s.value, ast.Call) and call_name(s.value).split(".")[-1] in ("create_request", "JSONRPCRequest")}
+        for s in walk_local(send.node):
+            if isinstance(s, ast.Assign) and len(s.targets) == 1 and isinstance(s.targets[0], ast.Name) and isinstance(s.value, ast.Attribute) and s.value.attr == "id" and isinstance(s.value.value, ast.Name) and s.value.value.id in built:
+                id_var = s.targets[0].id
+
     def cev(call, st, an):
         nm = call_name(call)
         if nm.endswith("send_cancelled_notification"):
